@@ -127,6 +127,13 @@ CHECKS = {
        'html5lib, lxml-xml) and the HTML-only pseudo-classes in XML are enumerated.',
   design_ref='DESIGN.md §4 C11',
   technique='CrossHair symbolic execution of real matcher + z3 (symbolic case masks), reference rule table, replay'),
+ 'C12': dict(
+  text='Checking of the real namespace matching: attribute namespace selectors against an element whose namespaced '
+       'attribute URI and the caller\'s map value are symbolic strings (solver explores the equality structure); element '
+       'namespace selectors over every equality pattern of (root ns, element ns, map[x], map[default]) x 15 selector forms '
+       '(exhaustive enumeration by symbolic index); an XHTML+SVG+xlink document from lxml-xml and html5lib under 7 prefix maps.',
+  design_ref='DESIGN.md §4 C12',
+  technique='CrossHair symbolic execution of real matcher + z3 (symbolic URIs), reference namespace predicate, replay'),
 }
 
 NOT_APPLICABLE = {
